@@ -1,4 +1,5 @@
 //@ expect: E0616 mask
+//@ realname: mask storage::MaskedStorage
 //@ twin: w10_twin_unprotected_in_unsafe
 use specs::prelude::*;
 use specs::storage::MaskedStorage;
